@@ -63,6 +63,29 @@ static std::vector<Plan> c02_fixed(int tier) {
             }
         }
     }
+    // DTLS anti-replay window (64 records): a run of withheld datagrams, the next one delivered, then replayed - at and around the window
+    // sizes - plus replays of the records in front of the gap
+    for (size_t f = 9; f < nf; f++) {
+        static const int GAPS[] = { 1, 3, 30, 31, 32, 33, 40, 62, 63, 64, 65, 100 };
+        for (size_t gi = 0; gi < sizeof GAPS / sizeof GAPS[0]; gi++) {
+            for (int dir = 0; dir < 2; dir++) {
+                if (!tier && gi % 2 == (size_t) dir) { continue; }
+                for (int pre = 0; pre < 2; pre++) {         // pre = 0: the run of losses starts with the very first application record
+                Plan p; p.seed = 57000 + f * 100 + (uint64_t) (gi * 4) + (uint64_t) dir * 2 + (uint64_t) pre;
+                p.cfg["ver"] = FAMS[f].ver; p.cfg["suite"] = FAMS[f].suite; p.cfg["pmtu"] = 1500;
+                p.ops.push_back(Op("hs"));
+                if (pre) { p.ops.push_back(Op("send", dir, 40)); p.ops.push_back(Op("send", 1 - dir, 41)); p.ops.push_back(Op("pump")); }
+                for (int i = 0; i < GAPS[gi]; i++) { p.ops.push_back(Op("arm", dir, 0, 0, 0, "drop")); p.ops.push_back(Op("send", dir, 20 + i % 7)); }
+                p.ops.push_back(Op("send", dir, 77)); p.ops.push_back(Op("pump"));
+                p.ops.push_back(Op("inject", dir, -1, 0, 0, "replay")); p.ops.push_back(Op("pump"));                       // the record that made the jump
+                p.ops.push_back(Op("inject", dir, -(int64_t) (GAPS[gi] + 2), 0, 0, "replay")); p.ops.push_back(Op("pump"));   // the last record delivered in front of the gap
+                p.ops.push_back(Op("send", dir, 78)); p.ops.push_back(Op("pump"));
+                p.ops.push_back(Op("inject", dir, -2, 0, 0, "replay")); p.ops.push_back(Op("inject", dir, -1, 0, 0, "replay")); p.ops.push_back(Op("pump"));
+                v.push_back(p);
+                }
+            }
+        }
+    }
     for (size_t f = 0; f < nf; f++) {
         // a 3-byte payload: header 5/13 + explicit IV/nonce + body + MAC/tag + pad <= ~80 bytes -> <= 640 bits
         int maxbits = tier ? 640 : 0;
